@@ -1253,6 +1253,8 @@ package spec
 
 //@ func ExpandSpec
 //@   strings  uninterpreted
+//@   call expandSchema 0 requires [C09] definitions-walked-only-when-expanding-schemas @@ !arg_resolver.options.SkipSchemas
+//@   loop 0 invariant [C09] !resolver.options.SkipSchemas
 //@   property C04, C08, C18, C10
 //@   requires spec != nil
 //@   loop 0 invariant wfResolver(resolver) && canonBase(specBasePath) && resolver.options.ContinueOnError == (options0 != nil && old(options0.ContinueOnError))
